@@ -218,6 +218,8 @@ def plan(tier, seed):
     for i in range(nr):
         specs.append({"mode": "rand", "seed": seed * 1000003 + 17 * 1009 + i, "n": RAND_N[tier] // nr})
     specs.append({"mode": "readonly", "seed": seed * 1000003 + 17 * 1009 + 999, "nrand": 300 if tier == "quick" else 3000})
+    specs.append({"mode": "large"})
+    specs.append({"mode": "diskfull", "seed": seed})
     # long shards first; a few shards contribute the evidence samples
     specs.sort(key=lambda s: -s.get("expect", 0))
     for ov in (8191, 2):
@@ -241,6 +243,9 @@ def required_counters(tier):
         "enum:histories",
         "rand:histories",
         "mutable-producer-histories",
+        "large-histories",
+        "diskfull:cases",
+        "diskfull:append-raised",
         "remain_invariant_checked",
         "fileview_last",
         "readonly:cases",
@@ -744,6 +749,97 @@ def do_readonly(acc, case):
         acc.violation(key, f"{what} | case {case}"[:900], case)
 
 
+# ------------------------------------------------------------ failing temp file
+
+
+def run_diskfull(acc, spec, only=None):
+    """The temporary file cannot be written (disk full) while the buffer migrates to it or grows in
+    it: append() may fail loudly, but a call that RETURNS leaves a consistent queue -- length =
+    appended - consumed for the appends that returned, peeks are prefixes, nothing is lost silently."""
+    import errno as _errno
+    import tempfile
+
+    from waitress import buffers as B
+
+    PAT = pattern()
+    real_tf = tempfile.TemporaryFile
+
+    class FailingFile:
+        def __init__(self, f, budget):
+            self._f, self._budget = f, budget
+
+        def write(self, data):
+            if self._budget[0] < len(data):
+                k = max(0, self._budget[0])
+                if k:
+                    self._f.write(data[:k])
+                self._budget[0] = 0
+                raise OSError(_errno.ENOSPC, "No space left on device")
+            self._budget[0] -= len(data)
+            return self._f.write(data)
+
+        def __getattr__(self, name):
+            return getattr(self._f, name)
+
+    n = 0
+    try:
+        for ov in (0, 2, 8191, 8192, 20000):
+            for budget in (0, 1, 4096, 8191, 8192, 12000, 30000):
+                for sizes in ([9000, 9000, 9000], [5000, 5000, 5000, 5000, 5000], [8191, 1, 12000], [22000], [1, 8190, 1, 20001]):
+                    for consume in (0, 7):
+                        bud = [budget]
+                        tempfile.TemporaryFile = lambda *a, **k: FailingFile(real_tf(*a, **k), bud)
+                        buf = B.OverflowableBuffer(ov)
+                        q = bytearray()
+                        pos = 0
+                        case = {"kind": "diskfull", "overflow": ov, "budget": budget, "sizes": sizes, "consume": consume}
+                        if only is not None and case != only:
+                            tempfile.TemporaryFile = real_tf
+                            continue
+                        n += 1
+                        acc.evaluations += 1
+                        raised = False
+                        try:
+                            for i, size in enumerate(sizes):
+                                data = PAT[pos:pos + size]
+                                pos += size
+                                try:
+                                    buf.append(data)
+                                except OSError:
+                                    raised = True
+                                    acc.count("diskfull:append-raised")
+                                    break
+                                q += data
+                                if consume and i == 0 and len(q) >= consume:
+                                    try:
+                                        buf.skip(consume, True)  # may have to create the file: a loud failure is fine
+                                    except OSError:
+                                        raised = True
+                                        acc.count("diskfull:append-raised")
+                                        break
+                                    del q[:consume]
+                            if raised:
+                                continue
+                            acc.count("diskfull:all-appends-returned")
+                            if buf.__len__() != len(q):
+                                acc.violation("len-mismatch:disk-full", f"after appends that all returned, __len__ is {buf.__len__()}, appended - consumed is {len(q)} | {case}", case)
+                                continue
+                            got = buf.get(len(q))
+                            if got != bytes(q[:len(got)]) or len(got) < len(q):
+                                acc.violation("peek-not-prefix:disk-full", f"get({len(q)}) returned {len(got)} bytes, the queue holds {len(q)} | {case}", case)
+                        except Exception as e:  # noqa
+                            acc.violation("exception:" + type(e).__name__ + ":disk-full", f"{type(e).__name__}: {e} | {case}", case)
+                        finally:
+                            try:
+                                buf.close()
+                            except Exception:  # noqa
+                                pass
+    finally:
+        tempfile.TemporaryFile = real_tf
+    acc.count("diskfull:cases", n)
+    acc.sample({"mode": "diskfull", "cases": n})
+
+
 # --------------------------------------------------------------------- shards
 
 
@@ -775,6 +871,22 @@ def run_shard(spec):
             if spec.get("sample") and len(path) == 3 and len(ops) <= 12 and len(acc.samples) < 1:
                 acc.sample({"overflow": ov, "random_history": brief_ops(ops), "representations": ">".join(REPR[s] for s in path)})
         acc.count("rand:histories", spec["n"])
+    elif mode == "large":
+        # queues of several hundred kB (beyond any internal copy-block size): peeks as long as the queue
+        n = 0
+        for ov in (0, 8191, 300000, 1048576):
+            for big in (262144, 262145, 300001, 524289):
+                for ops in (
+                    [["append", big], ["peek", big], ["peek", big + 7], ["getskip", 1], ["peek", big - 1], ["skip", big - 1]],
+                    [["append", 20001], ["append", big - 20001], ["peek", big], ["getskip", 262144], ["peek", big - 262144], ["fileview", None]],
+                    [["append", big], ["skip", 5], ["peek", big - 5], ["append", 9000], ["peek", big + 8995], ["getskip", big + 8995]],
+                ):
+                    do_history(acc, ov, ops, "rand")
+                    n += 1
+        acc.count("large-histories", n)
+        acc.sample({"mode": "large", "queued_up_to": 533289})
+    elif mode == "diskfull":
+        run_diskfull(acc, spec)
     else:
         rng = random.Random(spec["seed"])
         for case in readonly_grid() + nonseekable_grid():
@@ -811,6 +923,10 @@ def replay(case):
              "what": f"overflow={case['overflow']} op#{idx}: {what} | history: {brief_ops(case['ops'])}"[:900], "case": case}
             for key, what, idx in viols
         ]
+    if kind == "diskfull":
+        acc = Acc()
+        run_diskfull(acc, {}, only={k: case[k] for k in ("kind", "overflow", "budget", "sizes", "consume")})
+        return acc.violations
     if kind == "readonly":
         vs = run_readonly(case)
     elif kind == "nonseekable":
